@@ -1,12 +1,22 @@
 #!/usr/bin/env python3
-"""seed_prompt.py Cxx : print the prompt given to a fresh sub-agent asked to break property Cxx (property text only; nothing of /verif)."""
-import json, sys
+"""seed_prompt.py Cxx [suffix] : print the prompt given to a fresh sub-agent asked to break property Cxx (property text only;
+nothing of /verif).  With a suffix (second and later rounds) the scratch dirs are /tmp/wt_Cxx<suffix>, /tmp/seed_Cxx<suffix> and the
+prompt names the places earlier seeds already changed, so that the new change exercises a different mechanism."""
+import json, sys, glob, os
 pid = sys.argv[1]
+suf = sys.argv[2] if len(sys.argv) > 2 else ""
 for l in open('/verif/properties.jsonl'):
     d = json.loads(l)
     if d['id'] == pid:
         t = open('/verif/seeded/seed_prompt.txt').read()
-        for k, v in {"{WT}": "/tmp/wt_" + pid, "{SD}": "/tmp/seed_" + pid, "{ID}": pid, "{TITLE}": d['title'], "{STATEMENT}": d['statement'],
+        for k, v in {"{WT}": "/tmp/wt_" + pid + suf, "{SD}": "/tmp/seed_" + pid + suf, "{ID}": pid, "{TITLE}": d['title'], "{STATEMENT}": d['statement'],
                      "{QUANT}": d['quantifier']['text'], "{WHY}": d['why_tests_cant']}.items():
             t = t.replace(k, v)
+        if suf:
+            used = []
+            for m in sorted(glob.glob('/verif/seeded/%s-*/meta.json' % pid)):
+                s = json.load(open(m)).get('summary', '')
+                used.append("- " + s[:400])
+            if used:
+                t += "\nEarlier experiments already made the following changes; choose a DIFFERENT file/function and a different clause of the property:\n" + "\n".join(used) + "\n"
         print(t)
